@@ -24,7 +24,10 @@ impl File {
 
     /// The file's LDM records.
     pub fn records(&self) -> Vec<Record> {
-        split_compressed_records(&self.0[size_of::<Header>()..])
+        match self.0.get(size_of::<Header>()..) {
+            Some(records_data) => split_compressed_records(records_data),
+            None => Vec::new(),
+        }
     }
 
     /// Decodes this volume file into a common model scan containing sweeps and radials with moment
